@@ -535,13 +535,27 @@ func (l *Lexer) shiftEndTag() []byte {
 // shiftXML parses the content of a svg or math tag according to the XML 1.1 specifications, including the tag itself.
 // So far we have already parsed `<svg` or `<math`.
 func (l *Lexer) shiftXML(rawTag Hash) []byte {
-	inQuote := false
+	inTag := true    // so far we have parsed `<svg` or `<math`
+	quote := byte(0) // the quote character of the attribute value we are in, or zero
 	for {
 		c := l.r.Peek(0)
-		if c == '"' {
-			inQuote = !inQuote
+		if quote != 0 && c != 0 {
+			if c == quote {
+				quote = 0
+			}
 			l.r.Move(1)
-		} else if c == '<' && !inQuote && l.r.Peek(1) == '/' {
+		} else if inTag && c != 0 {
+			// quotes are only significant inside a tag
+			if c == '"' || c == '\'' {
+				quote = c
+			} else if c == '>' {
+				inTag = false
+			}
+			l.r.Move(1)
+		} else if c == '<' && l.r.Peek(1) != '/' {
+			inTag = l.r.Peek(1) != '!' && l.r.Peek(1) != '?' // not a comment, CDATA section or processing instruction
+			l.r.Move(1)
+		} else if c == '<' {
 			mark := l.r.Pos()
 			l.r.Move(2)
 			for {
